@@ -13,7 +13,8 @@ def core_tree(rng, depth):
     G = gen_compose
     if depth <= 0 or rng.random() < 0.12:
         return rng.choice([G.N("a"), G.N("b"), G.K(1), G.K("s"), G.K(2.5), G.K(None), G.K(True)])
-    k = rng.choice(["bin", "bin", "bin", "un", "bool", "cmp", "if", "lam", "wal", "attr", "call", "sub"])
+    k = rng.choice(["bin", "bin", "bin", "un", "bool", "cmp", "if", "lam", "wal", "attr", "call", "call", "sub", "list", "tuple", "set"])
+    star = lambda x: ast.Starred(value=x, ctx=G.L) if rng.random() < 0.2 else x
     r = lambda: core_tree(rng, depth - 1)
     if k == "bin":
         return ast.BinOp(left=r(), op=rng.choice(G.BINOPS)(), right=r())
@@ -33,7 +34,14 @@ def core_tree(rng, depth):
     if k == "attr":
         return ast.Attribute(value=r(), attr="f", ctx=G.L)
     if k == "call":
-        return ast.Call(func=r(), args=[r() for _ in range(rng.randint(0, 3))], keywords=[])
+        return ast.Call(func=r(), args=[star(r()) for _ in range(rng.randint(0, 3))],
+                        keywords=[ast.keyword(arg=a, value=r()) for a in rng.sample(["k", "m", None, None], rng.randint(0, 3))])
+    if k == "list":
+        return ast.List(elts=[star(r()) for _ in range(rng.randint(0, 3))], ctx=G.L)
+    if k == "tuple":
+        return ast.Tuple(elts=[star(r()) for _ in range(rng.randint(0, 3))], ctx=G.L)
+    if k == "set":
+        return ast.Set(elts=[star(r()) for _ in range(rng.randint(1, 3))])
     s = r()
     while isinstance(s, (ast.Tuple, ast.Slice, ast.Starred)):
         s = r()
